@@ -415,7 +415,56 @@ func init() {
 	register(c06PP.key(), c06PP.Oracle)
 }
 
+// c06Baits: fixed dumps in which one goroutine sits between two buckets - were similarity
+// ever not transitive there (an inaccurate or unprintable value, an elided argument list, a
+// missing argument), the bucket it joins would depend on the order a map is walked in. The
+// repetitions of the in-process check sample that order.
+func c06Baits() []DumpM {
+	u := universe16()
+	between := func(a ArgM) GM {
+		g := u[2]
+		g.Frames = cloneFrames(g.Frames)
+		g.Frames[0].Args.Items = []ArgM{a}
+		return g
+	}
+	sets := [][]GM{
+		{u[2], u[3], between(ArgM{Val: 3, Inacc: true})},
+		{u[0], u[1], between(ArgM{Val: 0xc000030003, Inacc: true})},
+		{u[2], u[3], u[14]},
+		{u[0], u[1], u[14], u[6]},
+		{u[4], u[5], between(ArgM{Agg: &ArgListM{Items: []ArgM{{Val: 3, Inacc: true}}}})},
+		{u[2], u[3], between(ArgM{Val: 3, Inacc: true}), u[0], u[1], between(ArgM{Val: 0xc000030003, Inacc: true}), u[14], u[6]},
+	}
+	var out []DumpM
+	for _, gs := range sets {
+		// a running goroutine first, so that none of the baits is the crashing one
+		d := DumpM{FileIndent: "\t", Gs: []GM{{State: "running", ElideAt: -1, Frames: []FrameM{{Pkg: "main", Name: "main", File: "/a/m.go", Line: 3, PCOff: 1}}}}}
+		for r := 0; r < 2; r++ {
+			for _, g := range gs {
+				g.Frames = cloneFrames(g.Frames)
+				d.Gs = append(d.Gs, g)
+			}
+		}
+		for i := range d.Gs {
+			d.Gs[i].ID = i + 1
+		}
+		out = append(out, d)
+	}
+	return out
+}
+
 func TestC06(t *testing.T) {
+	if cfg.Shard == 0 {
+		baits := c06Baits()
+		for i, d := range baits {
+			for _, naming := range []bool{false, true} {
+				if !c06Dump.Each(t, c06Case{D: d, Other: baits[(i+1)%len(baits)], Naming: naming}) {
+					return
+				}
+			}
+		}
+		statsFor("C06").class("fixed_dumps_with_a_goroutine_between_two_buckets", int64(2*len(baits)))
+	}
 	a := c06Dump
 	a.Checks = n(120, 1500)
 	a.Run(t)
